@@ -21,7 +21,7 @@ CHECKS = {
          'multi-sentence, multi-reader, damaged runs, which a seed sweep supplies and shrinks.',
     note='Trusted: reference encoders/decoders and the label-grammar reference (unit-tested by '
          'round trip), CPython text/gzip/expat layers, the SimRaw file seam. disco_reordered is '
-         'not exercised.'),
+         'judged as: tokens in the order of the tree part, word = <index>-<word of that index>.'),
  'C03': dict(
     ref='DESIGN.md §5 C03',
     technique='deterministic simulation: chains of real CLI commands in fresh/forked simulated '
